@@ -10,9 +10,11 @@ Only rewrites whose result is the same program are made, each under a stated con
   E)``), assignments, ``raise``, ``for ... in`` and ``with`` headers.  An ``elif`` is the
   ``if`` statement alone in an ``else`` block, so the assignment lands in that block.
 
-* ``map(operator.invert, xs)`` (also ``neg``, ``not_``; the function named through this
-  module's imports of :py:mod:`operator`, and ``map`` not re-bound in the module)  ->
-  ``(~x for x in xs)``: both are lazy iterators applying the operator to each element.
+* ``map(f, xs)`` -> ``(f(x) for x in xs)``, ``filter(f, xs)`` / ``filterfalse(f, xs)`` ->
+  ``(x for x in xs if [not] f(x))`` for ``f`` a name or attribute chain (``operator.invert``
+  etc. named through this module's imports become the operator itself, ``bool``/``None``
+  the truth of the element); ``map``/``filter`` must not be re-bound in the module.  Both
+  sides are lazy iterators applying the function to each element in order.
 
 Assignment expressions elsewhere (second operand of ``and``/``or``, comprehensions,
 ``while`` tests, ``assert``) stay as they are and are interpreted by the path engine.
@@ -176,31 +178,73 @@ _UNARY = {'invert': ast.Invert, '__invert__': ast.Invert, 'inv': ast.Invert,
 
 def _operator_imports(tree):
     """(names bound to unary functions of `operator`, names bound to the module itself,
-    whether `map` is re-bound at module level)"""
-    functions, modules, shadowed = {}, set(), False
+    names re-bound somewhere in the module among map/filter/bool, names bound to
+    itertools.filterfalse)"""
+    functions, modules, shadowed = {}, set(), set()
+    filterfalse = set()
     for node in ast.walk(tree):
         if isinstance(node, ast.ImportFrom) and node.module == 'operator' and not node.level:
             for alias in node.names:
                 if alias.name in _UNARY:
                     functions[alias.asname or alias.name] = _UNARY[alias.name]
+        elif isinstance(node, ast.ImportFrom) and node.module == 'itertools' and \
+                not node.level:
+            for alias in node.names:
+                if alias.name == 'filterfalse':
+                    filterfalse.add(alias.asname or alias.name)
         elif isinstance(node, ast.Import):
             for alias in node.names:
                 if alias.name == 'operator':
                     modules.add(alias.asname or 'operator')
-        elif isinstance(node, (ast.FunctionDef, ast.AsyncFunctionDef, ast.ClassDef)) and \
-                node.name == 'map':
-            shadowed = True
-        elif isinstance(node, ast.Name) and node.id == 'map' and \
-                isinstance(node.ctx, ast.Store):
-            shadowed = True
-        elif isinstance(node, ast.arg) and node.arg == 'map':
-            shadowed = True
-    return functions, modules, shadowed
+    # names re-bound at module level hide the builtin everywhere in the module; inside a
+    # function (parameters, local stores) only there: see _MapToGenerator.visit_FunctionDef
+    shadowed |= _bound_in(tree)
+    return functions, modules, shadowed, filterfalse
+
+
+def _bound_in(scope) -> set:
+    """which of map/filter/bool are bound directly in this module / function scope"""
+    found = set()
+    todo = list(ast.iter_child_nodes(scope))
+    if isinstance(scope, (ast.FunctionDef, ast.AsyncFunctionDef, ast.Lambda)):
+        args = scope.args
+        for arg in args.posonlyargs + args.args + args.kwonlyargs + \
+                [a for a in (args.vararg, args.kwarg) if a is not None]:
+            if arg.arg in _BUILTINS:
+                found.add(arg.arg)
+    while todo:
+        node = todo.pop()
+        if isinstance(node, (ast.FunctionDef, ast.AsyncFunctionDef, ast.ClassDef)):
+            if node.name in _BUILTINS:
+                found.add(node.name)
+            continue  # an inner scope of its own
+        if isinstance(node, ast.Lambda):
+            continue
+        if isinstance(node, ast.Name) and node.id in _BUILTINS and \
+                isinstance(node.ctx, (ast.Store, ast.Del)):
+            found.add(node.id)
+        elif isinstance(node, (ast.Import, ast.ImportFrom)):
+            for alias in node.names:
+                if (alias.asname or alias.name).split('.')[0] in _BUILTINS:
+                    found.add((alias.asname or alias.name).split('.')[0])
+        elif isinstance(node, (ast.Global, ast.Nonlocal)):
+            found.update(n for n in node.names if n in _BUILTINS)
+        todo.extend(ast.iter_child_nodes(node))
+    return found
+
+
+_BUILTINS = ('map', 'filter', 'bool')
 
 
 class _MapToGenerator(ast.NodeTransformer):
-    def __init__(self, functions, modules):
-        self.functions, self.modules, self.count = functions, modules, 0
+    """``map(f, xs)`` -> ``(f(x) for x in xs)``, ``filter(f, xs)`` -> ``(x for x in xs if
+    f(x))``, ``filterfalse(f, xs)`` -> ``(x for x in xs if not f(x))``: the same lazy
+    iterators, for ``f`` a name or an attribute chain (looked up per element instead of
+    once: the same function unless it is re-bound while the iterator is consumed)"""
+
+    def __init__(self, functions, modules, shadowed, filterfalse):
+        self.functions, self.modules = functions, modules
+        self.shadowed, self.filterfalse, self.count = shadowed, filterfalse, 0
 
     def _unary(self, func):
         if isinstance(func, ast.Name):
@@ -210,37 +254,89 @@ class _MapToGenerator(ast.NodeTransformer):
             return _UNARY.get(func.attr)
         return None
 
+    def visit_FunctionDef(self, node):
+        saved = self.shadowed
+        self.shadowed = saved | _bound_in(node)
+        try:
+            return self.generic_visit(node)
+        finally:
+            self.shadowed = saved
+
+    visit_AsyncFunctionDef = visit_Lambda = visit_FunctionDef
+
+    def visit_ClassDef(self, node):
+        # names bound in a class body are not visible in its methods
+        return self.generic_visit(node)
+
+    @staticmethod
+    def _plain(func) -> bool:
+        while isinstance(func, ast.Attribute):
+            func = func.value
+        return isinstance(func, ast.Name)
+
+    def _apply(self, func, var, node):
+        """expression for ``func(var)``"""
+        operand = ast.Name(id=var, ctx=ast.Load())
+        op = self._unary(func)
+        if op is not None:
+            return ast.UnaryOp(op=op(), operand=operand)
+        if isinstance(func, ast.Name) and func.id == 'bool' and 'bool' not in self.shadowed:
+            return None  # truth of the element itself
+        if self._plain(func):
+            return ast.Call(func=func, args=[operand], keywords=[])
+        return False
+
     def visit_Call(self, node):
         node = self.generic_visit(node)
-        if isinstance(node.func, ast.Name) and node.func.id == 'map' and \
-                len(node.args) == 2 and not node.keywords and \
-                not isinstance(node.args[1], ast.Starred):
-            op = self._unary(node.args[0])
-            if op is not None:
-                used = {n.id for n in ast.walk(node.args[1]) if isinstance(n, ast.Name)}
-                var = 'x_'
-                while var in used:
-                    var += '_'
-                elt = ast.UnaryOp(op=op(), operand=ast.Name(id=var, ctx=ast.Load()))
-                comp = ast.comprehension(target=ast.Name(id=var, ctx=ast.Store()),
-                                         iter=node.args[1], ifs=[], is_async=0)
-                new = ast.GeneratorExp(elt=elt, generators=[comp])
-                for fresh in ast.walk(new):
-                    if isinstance(fresh, ast.expr) and not hasattr(fresh, 'lineno'):
-                        ast.copy_location(fresh, node)
-                self.count += 1
-                return new
-        return node
+        if not (isinstance(node.func, ast.Name) and len(node.args) == 2 and
+                not node.keywords and not any(isinstance(a, ast.Starred) for a in node.args)):
+            return node
+        kind = node.func.id
+        if kind in ('map', 'filter'):
+            if kind in self.shadowed:
+                return node
+        elif kind in self.filterfalse:
+            kind = 'filterfalse'
+        else:
+            return node
+        func, source = node.args
+        used = {n.id for n in ast.walk(node) if isinstance(n, ast.Name)}
+        var = 'x_'
+        while var in used:
+            var += '_'
+        if kind != 'map' and isinstance(func, ast.Constant) and func.value is None:
+            applied = None
+        else:
+            applied = self._apply(func, var, node)
+            if applied is False:
+                return node
+        element = ast.Name(id=var, ctx=ast.Load())
+        if kind == 'map':
+            if applied is None:
+                applied = ast.Call(func=func, args=[element], keywords=[])
+            elt, ifs = applied, []
+        else:
+            test = applied if applied is not None else ast.Name(id=var, ctx=ast.Load())
+            if kind == 'filterfalse':
+                test = ast.UnaryOp(op=ast.Not(), operand=test)
+            elt, ifs = element, [test]
+        comp = ast.comprehension(target=ast.Name(id=var, ctx=ast.Store()), iter=source,
+                                 ifs=ifs, is_async=0)
+        new = ast.GeneratorExp(elt=elt, generators=[comp])
+        for fresh in ast.walk(new):
+            if isinstance(fresh, ast.expr) and not hasattr(fresh, 'lineno'):
+                ast.copy_location(fresh, node)
+        self.count += 1
+        return new
 
 
 def desugar(tree):
     """normalise ``tree`` in place; returns the number of rewrites"""
     count = 0
-    functions, modules, shadowed = _operator_imports(tree)
-    if (functions or modules) and not shadowed:
-        mapper = _MapToGenerator(functions, modules)
-        mapper.visit(tree)
-        count += mapper.count
+    functions, modules, shadowed, filterfalse = _operator_imports(tree)
+    mapper = _MapToGenerator(functions, modules, shadowed, filterfalse)
+    mapper.visit(tree)
+    count += mapper.count
     for node in list(ast.walk(tree)):
         if isinstance(node, ast.ClassDef):
             continue
